@@ -2,7 +2,7 @@ CONSTANTS
   Seeds = {1, 2, 3, 4, 5, 6, 7, 8, 9, 10, 11, 12}
   DTs = {"f", "i"}
   Fixes = {}
-  Fams = {"join", "select", "arith", "order", "shape", "inplace"}
+  Fams = {"compare", "join", "select", "arith", "order", "shape", "inplace"}
 INIT Init
 NEXT Next
 INVARIANT Export
